@@ -84,15 +84,25 @@ Theorem C08_warning_alert_inert_before_establishment :
 Proof. exact warning_alert_inert_before_establishment. Qed.
 Print Assumptions C08_warning_alert_inert_before_establishment.
 
-(* once established it is, as coded, handed to Read as an error and the connection continues (exception X1b) *)
-Theorem C08_warning_alert_after_establishment :
-  forall (W : nat) (lease : bool) (s : rstate) (w : wire) (level desc : N),
-    r_closed s = false -> w_epoch w = 0 -> w_clear w = CAlert level desc -> is_warning (CAlert level desc) = true ->
+(* ONCE ESTABLISHED every unprotected alert - fatal, close_notify or warning - is inert: nothing output (no close,
+   no close_notify reply, no Read error), state untouched (no replay commit), full buffer or not.  The
+   post-establishment half of exception X1 is gone (d95e20d).  Regression corpus: 15fefd0000<seq>00020228,
+   ...00020100, ...0002015a after the handshake *)
+Theorem C08_unprotected_alert_inert_established :
+  forall (W : nat) (lease full : bool) (s : rstate) (w : wire),
+    unprotected_alert w = true -> recv_conn W lease full true s w = (s, []).
+Proof. exact unprotected_alert_inert_established_conn. Qed.
+Print Assumptions C08_unprotected_alert_inert_established.
+
+(* what exception X1 still is, as coded: WHILE THE HANDSHAKE IS RUNNING an unprotected fatal alert with a fresh
+   record number closes the endpoint (DTLS 1.2 alerts are unauthenticated until the epoch changes) *)
+Theorem C08_unprotected_fatal_alert_before_establishment :
+  forall (W : nat) (lease : bool) (s : rstate) (w : wire) (desc : N),
+    r_closed s = false -> w_epoch w = 0 -> w_clear w = CAlert alert_fatal desc -> desc <> desc_close_notify ->
     check maxseq48 (get_win W 0 (r_wins s)) (w_seq w) = true ->
-    snd (recv_conn W lease false true s w) = [OMark 0 (w_seq w); OErr] /\
-    r_closed (fst (recv_conn W lease false true s w)) = false.
-Proof. exact warning_alert_after_establishment. Qed.
-Print Assumptions C08_warning_alert_after_establishment.
+    snd (recv_conn W lease false false s w) = [OMark 0 (w_seq w); OClosed].
+Proof. exact unprotected_fatal_alert_before_establishment. Qed.
+Print Assumptions C08_unprotected_fatal_alert_before_establishment.
 
 (* ... and equally inert while a dual-stack endpoint is still negotiating the version.  (Regression corpus:
    15fefd0000<seq>0002016e to a dual-stack client before the server's first answer; before abcaac6 it ended
@@ -108,7 +118,8 @@ Proof. exact warning_alert_inert_during_negotiation. Qed.
 Print Assumptions C08_warning_alert_inert_during_negotiation.
 
 Theorem C08_recv_conn_is_recv :
-  forall (W : nat) (lease : bool) (s : rstate) (w : wire), recv_conn W lease false true s w = recv W lease s w.
+  forall (W : nat) (lease : bool) (s : rstate) (w : wire),
+    recv_conn W lease false true s w = recv_est true W lease s w.
 Proof. exact recv_conn_established. Qed.
 Print Assumptions C08_recv_conn_is_recv.
 
